@@ -2421,6 +2421,21 @@ def _statement_kinds(c1: ast.FunctionDef, site_nodes: dict[int, list[ast.AST]], 
             kinds[i] = 'KdRead'
         else:
             kinds[i] = 'KdLocal'
+    # completeness of the walk: every load of a template name lies in what some site evaluates, or in a logging statement
+    # (KLog: modelled as a no-op, its arguments are only formatted); nested functions / lambdas that mention one are not followed
+    covered = {id(x) for nodes in site_nodes.values() for nd in nodes for x in ast.walk(nd)}
+    for n in ast.walk(c1):
+        if isinstance(n, (ast.FunctionDef, ast.AsyncFunctionDef, ast.Lambda)) and n is not c1 \
+                and any(isinstance(x, ast.Name) and x.id in tenv for x in ast.walk(n)):
+            raise TranslateError(f'collapse_one line {n.lineno}: a nested function / lambda mentions a template object')
+        if isinstance(n, ast.Name) and n.id in tenv and isinstance(n.ctx, ast.Load) and id(n) not in covered:
+            st_ = n
+            while st_ is not None and not isinstance(st_, ast.stmt):
+                st_ = parents.get(id(st_))
+            is_log = isinstance(st_, ast.Expr) and isinstance(st_.value, ast.Call) and isinstance(st_.value.func, ast.Attribute) \
+                and (st_.value.func.attr in LOG_METHODS or ast.unparse(st_.value.func) == 'warnings.warn')
+            if not is_log:
+                raise TranslateError(f'collapse_one line {n.lineno}: template name `{n.id}` is used outside every site of the skeleton')
     for i, call in callee_sites.items():
         # statements of an inlined helper: local when no template object goes in, otherwise not classified
         if any(isinstance(x, ast.Name) and x.id in tenv for x in ast.walk(call)):
